@@ -393,11 +393,15 @@ impl Compiler {
                 } = inner
                 {
                     // Make const size by transforming `(?<=a|bb)` to `(?<=a)|(?<=bb)`
+                    // A look-around is atomic: once it matched, later alternatives are not tried.
                     let alternatives = &inner.children;
+                    self.b.add(Insn::BeginAtomic);
                     self.compile_alt(alternatives.len(), |compiler, i| {
                         let alternative = &alternatives[i];
                         compiler.compile_positive_lookaround(alternative, la)
-                    })
+                    })?;
+                    self.b.add(Insn::EndAtomic);
+                    Ok(())
                 } else {
                     self.compile_positive_lookaround(inner, la)
                 }
@@ -425,10 +429,19 @@ impl Compiler {
     }
 
     fn compile_positive_lookaround(&mut self, inner: &Info<'_>, la: LookAround) -> Result<()> {
+        // A look-around is atomic: once it matched, it is not backtracked into. A delegated body
+        // yields a single result anyway, a body compiled for the VM can leave branches behind.
+        let atomic = inner.hard;
+        if atomic {
+            self.b.add(Insn::BeginAtomic);
+        }
         let save = self.b.newsave();
         self.b.add(Insn::Save(save));
         self.compile_lookaround_inner(inner, la)?;
         self.b.add(Insn::Restore(save));
+        if atomic {
+            self.b.add(Insn::EndAtomic);
+        }
         Ok(())
     }
 
